@@ -52,20 +52,30 @@ def conj_(a, b):
 
 
 class Net:
-    def __init__(self, V, inds):
+    """
+    parities of the edges: one Boolean per edge and charge component; `fss` says which components are fermionic (the
+    configuration's `fermionic` field for a product symmetry).  One component, fermionic, is the Z2 / U1 case.
+    """
+    def __init__(self, V, inds, fss=(True,)):
         self.V = V
+        self.fss = tuple(fss)
+        self.K = len(self.fss)
         labels = sorted({i for ind in inds for i in ind})
-        self.p = {e: V.bool(f"p{'m' if e <= 0 else ''}{abs(e)}") for e in labels}
+        nm = lambda e, k: f"p{'m' if e <= 0 else ''}{abs(e)}" + ('' if self.K == 1 else f"_{k}")
+        self.p = {e: tuple(V.bool(nm(e, k)) for k in range(self.K)) for e in labels}
         self.Q = False
 
     def par(self, labels):
-        r = False
+        r = [False] * self.K
         for e in labels:
-            r = xor(r, self.p[e])
-        return r
+            r = [xor(a, b) for a, b in zip(r, self.p[e])]
+        return tuple(r)
 
-    def add(self, term):
-        self.Q = xor(self.Q, term)
+    def add_pair(self, pa, pb):
+        """ sign exponent of swapping two objects with parity vectors pa, pb: only fermionic components, each on its own """
+        for k in range(self.K):
+            if self.fss[k]:
+                self.Q = xor(self.Q, conj_(pa[k], pb[k]))
 
 
 class NT:
@@ -79,7 +89,9 @@ class NT:
 
     @property
     def n(self):
-        return (self.net.par(self.legs),)
+        # the tensor charge as integers 0 / 1 per component (what repository code may add up, test for truth, reduce mod 2)
+        from pyvc.sym import Ite
+        return tuple((Ite(x, 1, 0) if not isinstance(x, bool) else int(x)) for x in self.net.par(self.legs))
 
     def conj(self):
         return NT(self.net, self.legs)
@@ -130,15 +142,16 @@ def install(V, net):
             if not ok:
                 raise sym_abort()
             for g1, g2 in zip(gs[0::2], gs[1::2]):
-                net.add(conj_(net.par([a.legs[x] for x in g1]), net.par([a.legs[x] for x in g2])))
+                net.add_pair(net.par([a.legs[x] for x in g1]), net.par([a.legs[x] for x in g2]))
         else:
             legs = (axes,) if isinstance(axes, int) else tuple(axes)
-            ok = all(0 <= x < a.ndim for x in legs) and len(charge) == 1
+            ok = all(0 <= x < a.ndim for x in legs) and len(charge) == net.K
             V.check('callee-pre:swap_gate(charge):existing-legs-one-charge-per-symmetry', ok)
             if not ok:
                 raise sym_abort()
+            cpar = tuple((c % 2 == 1) if not isinstance(c, bool) else c for c in charge)
             for x in legs:
-                net.add(conj_(charge[0], net.p[a.legs[x]]))
+                net.add_pair(cpar, net.p[a.legs[x]])
         return NT(net, a.legs)
 
     V.stub(f'{C_}:tensordot', tensordot)
@@ -154,7 +167,9 @@ def sym_abort():
 def spec_form(net, swap):
     r = False
     for i, j in swap:
-        r = xor(r, conj_(net.p[i], net.p[j]))
+        for k in range(net.K):
+            if net.fss[k]:
+                r = xor(r, conj_(net.p[i][k], net.p[j][k]))
     return r
 
 
@@ -162,9 +177,10 @@ def spec_form(net, swap):
 #  native twin: real tensors with the model's parities
 # ---------------------------------------------------------------------------------------------------------------------
 
-def real_tensors(inds, conjs, par):
+def real_tensors(inds, conjs, par, fss=(True,)):
     import yastn
-    cfg = yastn.make_config(sym='Z2', fermionic=True)
+    K = len(fss)
+    cfg = yastn.make_config(sym='Z2', fermionic=True) if K == 1 else yastn.make_config(sym={2: 'U1xU1', 3: 'U1xU1xZ2'}[K], fermionic=tuple(fss))
     seen, ts = set(), []
     for k, ind in enumerate(inds):
         s = []
@@ -176,23 +192,30 @@ def real_tensors(inds, conjs, par):
                 seen.add(e)
         if conjs is not None and conjs[k]:
             s = [-x for x in s]
-        t = tuple(int(bool(par[e])) for e in ind)
-        a = yastn.Tensor(config=cfg, s=tuple(s), n=sum(t) % 2)
+        if K == 1:
+            t = tuple(int(bool(par[e][0])) for e in ind)
+            a = yastn.Tensor(config=cfg, s=tuple(s), n=sum(t) % 2)
+        else:
+            t = tuple(tuple(int(bool(x)) for x in par[e]) for e in ind)
+            n = [sum(s_ * t_[k] for s_, t_ in zip(s, t)) for k in range(K)]
+            if K == 3:
+                n[2] = n[2] % 2
+            a = yastn.Tensor(config=cfg, s=tuple(s), n=tuple(n))
         a.set_block(ts=t, Ds=(1,) * len(ind), val=[1.0])
         ts.append(a)
     return ts
 
 
-def run(V, inds, swap, order, conjs, via, net=None):
+def run(V, inds, swap, order, conjs, via, net=None, fss=(True,)):
     """ the network through the real ncon / einsum; returns (outcome, net) """
     import yastn
-    net = net or Net(V, inds)
+    net = net or Net(V, inds, fss)
     net.Q = False
     if V.symbolic:
         install(V, net)
         ts = [NT(net, ind) for ind in inds]
     else:
-        ts = real_tensors(inds, conjs, net.p)
+        ts = real_tensors(inds, conjs, net.p, fss)
     if via == 'ncon':
         out = V.outcome(yastn.ncon, ts, inds, conjs=conjs, order=order, swap=swap)
     else:
@@ -212,9 +235,9 @@ def run(V, inds, swap, order, conjs, via, net=None):
     return out, net
 
 
-def h_ncon_signs(V, inds, swap, order=None, conjs=None, via='ncon'):
+def h_ncon_signs(V, inds, swap, order=None, conjs=None, via='ncon', fss=(True,)):
     from yastn import YastnError
-    out, net = run(V, inds, swap, order, conjs, via)
+    out, net = run(V, inds, swap, order, conjs, via, fss=tuple(fss))
     if out.exc is not None:
         V.check('refused-only-by-YastnError', isinstance(out.exc, YastnError))
         V.cover('refused')
@@ -339,4 +362,20 @@ def units(tier):
             conjs = tuple(k % 2 for k in range(len(inds)))
             U.append(('h_ncon_signs', f"{name},swap={sw},einsum,{cls}", dict(inds=inds, swap=sw, order=None, via='einsum')))
             U.append(('h_ncon_signs', f"{name},swap={sw},conjs={conjs},{cls}", dict(inds=inds, swap=sw, order=None, conjs=conjs)))
+    # product symmetries: several charge components, some of them fermionic (U1xU1 with True / per-component flags, U1xU1xZ2 with the
+    # statistics in the Z2 channel); the networks where jump moves over (possibly odd) third tensors occur
+    for name in ('star3', 'chain3', 'bond+outer', 'ring4', 'double+third', 'peps-like', 'trace+bond') + (('triangle', 'ladder') if th else ()):
+        inds = NETWORKS[name]
+        labels = sorted({i for ind in inds for i in ind})
+        pos = [e for e in labels if e > 0]
+        pairs = list(itertools.combinations(labels, 2))
+        orders = list(itertools.permutations(pos)) if len(pos) > 1 else [None]
+        if len(orders) > (24 if th else 4):
+            orders = orders[::len(orders) // (24 if th else 4)]
+        for fss in ((True, True), (True, False), (False, False, True)) + (((False, True),) if th else ()):
+            for (i, j) in (pairs if th else pairs[::2]):
+                sw = ((i, j),)
+                cls = classify(inds, sw)
+                for order in orders:
+                    U.append(('h_ncon_signs', f"{name},swap={sw},order={order},fermionic={fss},{cls}", dict(inds=inds, swap=sw, order=order, fss=fss)))
     return U
